@@ -5,6 +5,7 @@ import (
 	"context"
 	"fmt"
 	"sync"
+	"sync/atomic"
 	"time"
 
 	"perun.network/go-perun/client"
@@ -90,6 +91,44 @@ func (b *Bus) SubscribeClient(c wire.Consumer, addr map[wallet.BackendID]wire.Ad
 		b.mu.Unlock()
 	})
 	return nil
+}
+
+// Port is one client instance's view of the bus. A crashed instance's port is
+// dead: whatever its left-over goroutines still publish goes nowhere.
+type Port struct {
+	B    *Bus
+	dead atomic.Bool
+}
+
+// NewPort returns a live port.
+func (b *Bus) NewPort() *Port { return &Port{B: b} }
+
+// Kill marks the port dead.
+func (p *Port) Kill() { p.dead.Store(true) }
+
+// Publish implements wire.Publisher.
+func (p *Port) Publish(ctx context.Context, e *wire.Envelope) error {
+	if p.dead.Load() {
+		return nil
+	}
+	return p.B.Publish(ctx, e)
+}
+
+// SubscribeClient implements wire.Bus.
+func (p *Port) SubscribeClient(c wire.Consumer, addr map[wallet.BackendID]wire.Address) error {
+	return p.B.SubscribeClient(c, addr)
+}
+
+// Detach removes the subscriber of an address (crash of that client).
+func (b *Bus) Detach(addr map[wallet.BackendID]wire.Address) {
+	k := wire.Keys(addr)
+	b.mu.Lock()
+	delete(b.recv, k)
+	if b.gen == nil {
+		b.gen = map[wire.AddrKey]int{}
+	}
+	b.gen[k]++
+	b.mu.Unlock()
 }
 
 // Partition sets or heals a directed partition from>to.
